@@ -25,6 +25,7 @@ VARIABLES world, label, args, step,
 vars == <<world, label, args, step, hist>>
 
 Pick(S) == IF Sim /\ S # {} THEN {RandomElement(S)} ELSE S
+Rarely(n) == ~Sim \/ RandomElement(1..n) = 1
 
 ---------------------------------------------------------------------------
 (* catalogues                                                              *)
@@ -156,6 +157,10 @@ ReExpressWorkload ==
       /\ Step("ReExpressWorkload", <<i>>,
               [world EXCEPT !.workloads[i] = MkWl(@, @.name, e)])
 
+RemoveWorkload ==
+  /\ Len(world.workloads) > 1 /\ Rarely(3)
+  /\ Step("RemoveWorkload", <<Len(world.workloads)>>, [world EXCEPT !.workloads = SubSeq(@, 1, Len(@) - 1)])
+
 RelabelNamespace ==
   \E i \in Pick(DOMAIN world.namespaces) :
     \E ls \in Pick({NoLabels, L1("team", "x"), L1("team", "y"), L2("team", "x", "env", "y")}) :
@@ -197,7 +202,6 @@ Dirs == {"Ingress", "Egress"}
 LastRule(i, dir) == LET rs == NPRules(world.netpols[i], dir) IN rs[Len(rs)]
 HasRules(i, dir) == Len(NPRules(world.netpols[i], dir)) > 0
 Where(P(_, _)) == {id \in (DOMAIN world.netpols) \X Dirs : HasRules(id[1], id[2]) /\ P(id[1], id[2])}
-Rarely(n) == ~Sim \/ RandomElement(1..n) = 1
 
 (* add a second peer / port to the last rule of a direction *)
 AddPeer ==
@@ -337,7 +341,7 @@ ExplicitPolicyTypes ==
 
 AddRuleAgain == AddRule      \* listed twice: TLC's simulator picks uniformly among the disjuncts of Next
 AddRuleOnceMore == AddRule
-NPNext == AddRuleAgain \/ AddRuleOnceMore \/ AddWorkload \/ ReExpressWorkload \/ RelabelNamespace \/ AddPolicy \/ AddRule \/ AddPeer \/ AddPort
+NPNext == AddRuleAgain \/ AddRuleOnceMore \/ AddWorkload \/ RemoveWorkload \/ ReExpressWorkload \/ RelabelNamespace \/ AddPolicy \/ AddRule \/ AddPeer \/ AddPort
           \/ SetPolicyTypes \/ RemovePolicy \/ RespellPodSelAsIn \/ RespellPeerSelAsIn \/ SplitRange \/ SplitCidr
           \/ SplitPolicy \/ ExplicitPolicyTypes
 
